@@ -306,6 +306,22 @@ theorem C06_reference_iff_ref_modifier (env : Env) (input : Str) (c : Col α)
   · obtain ⟨h1, d, h2, _, h3, rf, b, h4, _⟩ := C06_cookware_reference_backlinks env input _ c hev h k cw hk t ht
     exact ⟨h1, d, h2, h3, rf, b, h4⟩
 
+/-- **C06 with all clauses of the design.**  Every recipe `parse` returns satisfies `RecipeInv` (indices
+    in range, back-links exact, nothing empty, steps numbered, timers named or quantified) AND has its
+    item indices strictly increasing in document order per kind (`OrdFinal`); and when the report has
+    no error, each ingredient and cookware item is a reference exactly when it carries REF. -/
+theorem C06_holds_extended (env : Env) (input : Str) (c : Col Rat)
+    (h : (parseRecipe (α := Rat) env input).output = some c) :
+    RecipeInv c ∧ OrdFinal c ∧
+    ((∀ d ∈ (parseRecipe (α := Rat) env input).diags.toList, d.sev ≠ Sev.error) →
+      (∀ (k : Nat) (ig : Ingredient (ScalableValue Rat)), c.ingredients[k]? = some ig →
+        (ig.relation.relation.isReference = true ↔ ig.modifiers.contains Modifiers.REF = true)) ∧
+      (∀ (k : Nat) (cw : Cookware (ScalableValue Rat)), c.cookware[k]? = some cw →
+        (cw.relation.isReference = true ↔ cw.modifiers.contains Modifiers.REF = true))) :=
+  ⟨C06_holds env input c h,
+   C06_indices_in_document_order_of_events env input _ c (pullEvents_evOK env.cs env.ext input) h,
+   fun hno => C06_reference_iff_ref_modifier_of_events env input _ c (pullEvents_evOK env.cs env.ext input) h hno⟩
+
 /-! non-vacuity: a report with only a warning has no error; one with an error has -/
 example : ¬ HasErr #[⟨.warning, .analysis, "redundant-ref", []⟩] := by
   rintro ⟨d, hd, hs⟩
